@@ -265,3 +265,39 @@ impl<'a> Read for OverReportReader<'a> {
         }
     }
 }
+
+/// A reader with a hostile life cycle: it can panic inside `read` on a chosen
+/// call, and it can panic in its destructor (only when no panic is already in
+/// flight, so that the process never aborts on a double panic). Reads are
+/// limited to `max_read` bytes.
+pub struct PanickyReader<'a> {
+    pub data: &'a [u8],
+    pub pos: usize,
+    pub max_read: usize,
+    /// Panic inside the n-th `read` call (0-based).
+    pub panic_on_read: Option<u64>,
+    pub panic_in_drop: bool,
+    pub calls: u64,
+}
+
+impl<'a> Read for PanickyReader<'a> {
+    fn read(&mut self, buf: &mut [u8]) -> io::Result<usize> {
+        let call = self.calls;
+        self.calls += 1;
+        if self.panic_on_read == Some(call) {
+            panic!("xtv: reader panics inside read");
+        }
+        let n = buf.len().min(self.max_read.max(1)).min(self.data.len() - self.pos);
+        buf[..n].copy_from_slice(&self.data[self.pos..self.pos + n]);
+        self.pos += n;
+        Ok(n)
+    }
+}
+
+impl<'a> Drop for PanickyReader<'a> {
+    fn drop(&mut self) {
+        if self.panic_in_drop && !std::thread::panicking() {
+            panic!("xtv: reader panics in its destructor");
+        }
+    }
+}
